@@ -470,6 +470,24 @@ increment_simple_rowgroup_ctr(j_decompress_ptr cinfo, JDIMENSION rows)
     return;
   }
 
+  if (!master->using_merged_upsample) {
+    /* If the upsampler's conversion buffer still holds rows of the current row
+     * group, read (and discard) those first, so that the row group counter can
+     * be advanced from a row group boundary.
+     */
+    my_upsample_ptr upsample = (my_upsample_ptr)cinfo->upsample;
+
+    if (upsample->next_row_out < cinfo->max_v_samp_factor) {
+      JDIMENSION partial =
+        (JDIMENSION)(cinfo->max_v_samp_factor - upsample->next_row_out);
+
+      if (partial > rows)
+        partial = rows;
+      read_and_discard_scanlines(cinfo, partial);
+      rows -= partial;
+    }
+  }
+
   /* Increment the counter to the next row group after the skipped rows. */
   main_ptr->rowgroup_ctr += rows / cinfo->max_v_samp_factor;
 
